@@ -27,7 +27,7 @@ RULE += (' ' + 'Sub-check hocur_many_modes: 5 ... 64 modes of 1..3 functions wit
 ASSUMPTIONS = [
     'oracle: explicit Python loop over multi-indices and snapshots evaluating the basis functions point-wise',
     'data entries in [-1, 1]; basis-function values are O(1)',
-    'HOCUR: requested ranks >= number of snapshots (an upper bound of every TT rank of the transformed data tensor); '
+    'HOCUR: requested ranks >= number of snapshots (an upper bound of every TT rank of the transformed data tensor), or m - 1 on data with a repeated snapshot (class of the known finding F29); '
     'reconstruction compared at 1e-7 relative; cases whose unfoldings have singular-value ratios in (1e-13, 1e-4), or whose '
     'entries span more than nine orders of magnitude (or vanish exactly), are discarded (ill-conditioned cross approximation: a '
     'sampled cross can be numerically zero)',
@@ -159,7 +159,10 @@ def data(case, key='seed', m=None):
     else:
         x = rng.uniform(-1, 1, (case['d'], m))
     if case.get('duplicate') and m >= 2:
-        x[:, -1] = x[:, 0]
+        if case.get('dup_pos') == 'second' and m >= 3:
+            x[:, 1] = x[:, 0]                # (the repeated snapshot sits at the start of the data)
+        else:
+            x[:, -1] = x[:, 0]
     if form == 'readonly':
         x.setflags(write=False)        # e.g. a memory-mapped trajectory: any hidden write into the caller's data raises
     return x
@@ -370,12 +373,19 @@ def hocur_case(draw):
         # the same tensor up to a factor (1e-27 ... 1e9) -- requested ranks >= true ranks means the same in every unit
         phi = [[{'family': 'identity', 'index': i} for i in draw(st.lists(st.integers(0, d - 1), min_size=2, max_size=d, unique=True))] for _ in range(p)]
         x_scale_exp = draw(st.sampled_from([-9, -7, 3, 0]))
-    return {'d': d, 'm': m, 'phi': phi, 'seed': draw(gen.SEED), 'duplicate': draw(st.sampled_from([False, False, True])), 'x_scale_exp': x_scale_exp,
+    dup_ = draw(st.sampled_from([False, False, True]))
+    zero_ = draw(st.sampled_from([False] * 9 + [True]))
+    return {'d': d, 'm': m, 'phi': phi, 'seed': draw(gen.SEED), 'duplicate': dup_, 'x_scale_exp': x_scale_exp,
             'ranks_extra': draw(st.integers(0, 3)), 'repeats': draw(st.integers(1, 3)), 'multiplier': draw(st.sampled_from([2, 3, 10])),
             'ranks_list': draw(st.booleans()), 'reuse_ranks': draw(st.booleans()),
+            # with a repeated snapshot every TT rank is at most m - 1: requested ranks m - 1 are still "at least the true ranks"
+            # (known finding F29: the unchanged tree collapses to lower ranks there; the class is generated so that the finding is met and
+            # counted, failures inside it are attributed to F29)
+            'dup_pos': draw(st.sampled_from(['last', 'second'])),
+            'ranks_below_m': bool(dup_ and m >= 3 and not zero_ and draw(st.sampled_from([False, False, False, True]))),
             # one data entry exactly 0 (known finding F28: the cross approximation of the unchanged tree fails on tensors with exact
             # zeros; the class is generated so that the finding is met and counted, failures inside it are attributed to F28)
-            'exact_zero': draw(st.sampled_from([False] * 9 + [True])),
+            'exact_zero': zero_,
             'data_form': draw(st.sampled_from(['float', 'float', 'strided', 'fortran', 'readonly']))}
 
 
@@ -405,6 +415,9 @@ def body_hocur(case):
     if not onezero:
         assume(not case.get('exact_zero'))          # (the flag without its precondition is not a case of the class)
     r = case['m'] + case['ranks_extra']
+    below = bool(case.get('ranks_below_m')) and bool(case.get('duplicate')) and case['m'] >= 3 and not onezero
+    if below:
+        r = case['m'] - 1
     ranks = [1] + [r] * p + [1] if case['ranks_list'] else r
     if case['ranks_list'] and case.get('reuse_ranks') and case['m'] >= 2:
         # the same list object of requested ranks is used for an earlier call on data of rank one (all snapshots equal):
